@@ -195,3 +195,9 @@ package recordio
 //@        called(io.ReadFull, 0) && callres(io.ReadFull, 0, 1) == nil && callres(io.ReadFull, 0, 0) == expectedBytesRead
 //@   exit [C04:nil-record-stays-nil] r1 == nil && called(readRecordHeaderV4, 0) && callres(readRecordHeaderV4, 0, 3) == nil && callres(readRecordHeaderV4, 0, 2) ==> isnil(r0)
 //@   exit [C04:empty-is-not-nil] r1 == nil && called(readRecordHeaderV4, 0) && callres(readRecordHeaderV4, 0, 3) == nil && !callres(readRecordHeaderV4, 0, 2) ==> !isnil(r0)
+
+//@ func copyBuf
+//@   props C04 C12
+//@   ensures [fresh-non-nil-copy] !isnil(r0) && len(r0) == len(b) && content(r0) == old(content(b))
+//@   fresh r0
+//@   modifies nothing
